@@ -31,7 +31,40 @@ func (p *C06) Runs(tier string) int {
 	return 1800
 }
 
+// sweepCase: one document written with every track count of a range.
+func (p *C06) sweepCase(seed uint64, run int) *Case {
+	r := model.NewRand(seed, fmt.Sprintf("C06/sweep/%d", run))
+	o := &model.DocOpts{MaxInsts: 4 + r.Intn(8), ChordNames: p.w.ChordNames, Dynamics: p.w.Dynamics, Settings: true, Meta: true,
+		BigDegrees: r.Chance(1, 3), RestBias: model.Pick(r, []int{1, 3, 5}), TrailRest: r.Chance(1, 2), OddValues: r.Chance(1, 2)}
+	if run%4 == 3 {
+		o.MaxInsts = 90
+	}
+	d := model.GenDoc(r, o)
+	data := []byte(d.YAML(0))
+	c := &Case{Property: "C06", Kind: "tracks", Seed: seed, Run: run, Labels: []string{"track-count-sweep"}}
+	lo, hi := 1, 20
+	if run%2 == 1 {
+		lo, hi = 20, 40
+	}
+	c.Steps = append(c.Steps, Step{Step: simrt.Step{Argv: []string{"write", "--track", "1"}, Seed: r.U64(), Stdin: &simrt.Stream{Data: data}}, Note: "1"})
+	for n := lo; n <= hi; n++ {
+		if n == 1 {
+			continue
+		}
+		c.Steps = append(c.Steps, Step{Step: simrt.Step{Argv: []string{"write", "--track", fmt.Sprint(n)}, Seed: r.U64(), Stdin: &simrt.Stream{Data: data}}, Note: fmt.Sprint(n)})
+	}
+	for _, n := range []int{64, 100, 128, 255, 256, 257} {
+		if run%4 == 0 {
+			c.Steps = append(c.Steps, Step{Step: simrt.Step{Argv: []string{"write", "--track", fmt.Sprint(n)}, Seed: r.U64(), Stdin: &simrt.Stream{Data: data}}, Note: fmt.Sprint(n)})
+		}
+	}
+	return c
+}
+
 func (p *C06) Generate(seed uint64, run int) *Case {
+	if run < 16 {
+		return p.sweepCase(seed, run)
+	}
 	r := model.NewRand(seed, fmt.Sprintf("C06/%d", run))
 	o := &model.DocOpts{MaxInsts: 1 + r.Intn(10), ChordNames: p.w.ChordNames, Dynamics: p.w.Dynamics, Settings: r.Chance(2, 3), Meta: r.Chance(1, 2), Unicode: r.Chance(1, 4),
 		BigDegrees: r.Chance(1, 5), RestBias: model.Pick(r, []int{0, 1, 3, 5, 8}), TrailRest: r.Chance(1, 3), OddValues: r.Chance(1, 3)}
